@@ -255,6 +255,74 @@ def s1_sign_agreement(F, r):
         raise AnchorError(f"only {n} tour-count features found")
 
 
+def q3_value_counted_once(F, r):
+    """served value: the fitness counts every served JOB once (tour.jobs()), as the evaluator quotes a job's value once at route level — not once per activity"""
+    fit = [m for m in F.trait_impl_methods("vrp_core::models::goal::FeatureObjective::fitness") if "MaximizeTotalValueObjective" in m]
+    if len(fit) != 1:
+        raise AnchorError("MaximizeTotalValueObjective::fitness")
+    fam = F.family(fit[0])
+    calls = {t["callee"] for g in fam for _, t in mir.calls(F.fns[g])}
+    per_job = any(c.endswith("tour::Tour::jobs") for c in calls)
+    per_act = any(c.endswith("tour::Tour::all_activities") or c.endswith("tour::Tour::activities_slice") or c.endswith("tour::Tour::get") for c in calls)
+    if per_job and not per_act:
+        r.ok("MaximizeTotalValue::fitness", "sums the value of tour.jobs(): each served job once")
+    else:
+        r.fail("MaximizeTotalValue::fitness", "the fitness walks over ACTIVITIES instead of the tour's job set: a multi-activity job (pickup + delivery) is counted once per activity, while its value "
+               "is quoted once when it is inserted — quote and objective change disagree", F.loc(fit[0]))
+
+
+def e1_estimate_leg_law(F, r):
+    """distance / duration quote of a position: new legs prev->target->next minus the replaced leg prev->next; for a tour without jobs (its start->end leg is not part of
+    the objective yet) and at an open end nothing is subtracted. Finite evaluation of estimate_leg."""
+    from .. import ordeval as oe
+    el = F.find1("transport::estimate_leg")
+    fn = F.fns[el]
+    cnt = {"i": 0}
+
+    def est(i_, a, h, rl):
+        cnt["i"] += 1
+        return oe.sym(f"leg{cnt['i']}")
+    actx = [i for i in range(1, fn["argc"] + 1) if fn["locals"][i].endswith("ActivityContext<'_>") or "ActivityContext" in fn["locals"][i]]
+    if len(actx) != 1:
+        raise AnchorError("estimate_leg: ActivityContext parameter")
+    actx = actx[0]
+    seen = set()
+    for has_jobs in (False, True):
+        for has_next in (False, True):
+            heap = {(f"a{actx}", "next"): (oe.some(oe.ref(oe.sym("nxt"))) if has_next else oe.NONE)}
+            it = oe.Interp(F, el, {i: oe.ref(oe.sym(f"a{i}")) for i in range(1, fn["argc"] + 1)}, fresh=True, enum_results=True, max_steps=3000, heap=heap,
+                           call_models={"function::Fn::call": est, "tour::Tour::has_jobs": lambda i_, a, h, rl, v=has_jobs: ("bool", v)})
+            it.name_values = True
+            orig = it._run
+
+            def run(choices, orig=orig):
+                cnt["i"] = 0
+                return orig(choices)
+            it._run = run
+            try:
+                paths = it.explore(max_paths=200)
+            except oe.Undecided as e:
+                r.ok("estimate_leg", f"not decided: not evaluable over the finite orderings ({e})")
+                return
+            for p in paths:
+                ret = p.ret[1] if p.ret and p.ret[0] == "sym" else str(p.ret)
+                legs = cnt["i"]
+                inst = f"estimate_leg [tour has jobs={has_jobs}, next={'Some' if has_next else 'None'}]"
+                seen.add((has_jobs, has_next))
+                subtract_expected = has_jobs and has_next
+                # the replaced leg is the third leg estimate (prev->target, target->next, prev->next); a result that is the plain sum is named after prev_target_next
+                subtracted = legs >= 3 and not ret.startswith("prev_target_next")
+                if subtract_expected and not subtracted:
+                    r.fail(inst, "the replaced leg prev->next is not subtracted: inserting between two served activities is quoted with the full new legs", F.loc(el))
+                elif not subtract_expected and (legs >= 3 or (has_next and legs >= 3)):
+                    r.fail(inst, "the leg prev->next is estimated and subtracted although it is not part of the objective yet (tour without jobs) or does not exist (open end): the "
+                           "first job of a tour whose end differs from its start is quoted too cheap", F.loc(el))
+                else:
+                    r.ok(inst, "new legs - replaced leg" if subtract_expected else "new legs only")
+    if len(seen) < 4:
+        r.fail("estimate_leg: coverage", f"only {sorted(seen)} combinations evaluated", F.loc(el))
+
+
 def run(ctx):
     ctx.explanation = (
         "Structure of the quote: the cost stored for a position is goal.estimate(activity move) + the route-level estimate, which is threaded unchanged "
@@ -266,4 +334,11 @@ def run(ctx):
     ctx.not_decided = "numeric equality of quote and objective change; objectives with two independent closures beyond the tour count (arrival time, WorkBalance)."
     ctx.run("C20-Q1", "quote = route-level estimate + activity-level estimate, threaded to every leg; one component per layer", q1_quote_composition, floor=9)
     ctx.run("C20-S1", "sign/size agreement of quote and objective change: unassigned jobs (−estimator vs +estimator), tour count (±1 per opened tour)", s1_sign_agreement, floor=4)
+    ctx.run("C20-Q3", "served value: every served job counted once in the fitness", q3_value_counted_once, floor=1)
+    ctx.run("C20-E1", "distance/duration quote: new legs minus the replaced leg, nothing subtracted for a tour without jobs or an open end", e1_estimate_leg_law, floor=1)
+    try:
+        from . import c09
+        ctx.run("C09-I2", "InsertionCost Add/Sub are element-wise over ALL layers (quotes are sums of layer vectors)", c09.i2_arith, floor=4)
+    except (ImportError, AttributeError):
+        pass
     ctx.run("C20-Q2", "estimate and fitness use the same measure", q2_same_measure, floor=4)
